@@ -95,6 +95,7 @@ struct SimScenario
   const char *const *fault_names;          // null-terminated
   const char *const *probe_names;          // null-terminated
   int nontrivial_faults;                   // 1: single-task lane measure (plan,fault) instead of switches
+  int fork_per_run;                        // 1: process-global state without reset: one run per forked child
 };
 enum { LANE_INTERNAL = 1, LANE_OMP = 2, LANE_TBB = 4, LANE_DEBUG = 8, LANE_ALL = 15 };
 void sim_register(const SimScenario *s);
